@@ -444,23 +444,14 @@ func ruleSkipAgreement(c *Ctx) []Ob {
 			}
 			walk(ret.Results[0])
 			valOK := len(ls) == 2 && ls[fmt.Sprintf("c:%d", fh)] && ls["ld:"+f+".Type.FixedSize"]
-			notPtr, notOpt, fixed := false, false, false
+			notPtr := false
 			for _, cd := range domConds(b) {
 				if _, _, fld, ok := fieldOf(cd.V); ok && fld == "IsPointer" && !cd.Truth {
 					notPtr = true
 				}
-				if bo, ok := cd.V.(*ssa.BinOp); ok {
-					if v, ok := constInt(bo.Y); ok {
-						p := path(bo.X)
-						if p == f+".Spec" && v == optv && (bo.Op == token.EQL && !cd.Truth || bo.Op == token.NEQ && cd.Truth) {
-							notOpt = true
-						}
-						if p == f+".Type.FixedSize" && v == 0 && bo.Op == token.GTR && cd.Truth {
-							fixed = true
-						}
-					}
-				}
 			}
+			notOpt := holdsAt(b, fmt.Sprint(optv), "!=", f+".Spec", descInt)
+			fixed := holdsAt(b, "0", "<", f+".Type.FixedSize", descInt)
 			if !(valOK && notPtr && notOpt && fixed) {
 				okAll = false
 			}
